@@ -78,6 +78,47 @@ pub fn op_strat(resize: bool) -> BoxedStrategy<Op> {
     .boxed()
 }
 
+/// Navigation-heavy sequences on one trace with many flows of different lengths: selection,
+/// freezing, flow and address navigation, details, clearing - the commands whose effect depends
+/// on what the (frozen or live) snapshot holds.
+fn nav_op_strat() -> BoxedStrategy<Op> {
+    let nav = proptest::sample::select(vec![
+        Cmd::NextHop,
+        Cmd::PreviousHop,
+        Cmd::NextTrace,
+        Cmd::PreviousTrace,
+        Cmd::NextHopAddress,
+        Cmd::PreviousHopAddress,
+        Cmd::ToggleFreeze,
+        Cmd::ToggleFlows,
+        Cmd::ToggleHopDetails,
+        Cmd::ToggleChart,
+        Cmd::ClearSelection,
+        Cmd::ClearTraceData,
+        Cmd::ExpandPrivacy,
+        Cmd::ContractPrivacy,
+        Cmd::ExpandHostsMax,
+        Cmd::ContractHostsMin,
+    ]);
+    let any_key = proptest::sample::select(ALL_CMDS.to_vec());
+    prop_oneof![
+        8 => nav.prop_map(Op::Key),
+        2 => any_key.prop_map(Op::Key),
+        4 => proptest::collection::vec(syn_round(), 1..=3).prop_map(|rounds| Op::Rounds { trace: 0, rounds }),
+        1 => Just(Op::ClearTrace { trace: 0 }),
+    ]
+    .boxed()
+}
+
+fn nav_strat() -> BoxedStrategy<TuiCase> {
+    (trace_setup(), ui_setup(false), proptest::collection::vec(nav_op_strat(), 0..=40), prop_oneof![Just(2usize), Just(8), Just(64)])
+        .prop_map(|(mut t, ui, ops, max_flows)| {
+            t.cfg.max_flows = max_flows;
+            TuiCase { traces: vec![t], ui, ops }
+        })
+        .boxed()
+}
+
 fn strat() -> BoxedStrategy<TuiCase> {
     (proptest::collection::vec(trace_setup(), 1..=3), ui_setup(false), proptest::collection::vec(op_strat(true), 0..=40))
         .prop_map(|(traces, ui, ops)| TuiCase { traces, ui, ops })
@@ -243,6 +284,10 @@ pub fn check() -> PropertyCheck {
             "frontend.rs::run_app's key -> method dispatch table is mirrored in the harness (tui::dispatch); quit commands are excluded",
             "DNS names, AS and GeoIP text come from seeded fixtures (verif_seed, a generated MaxMind DB); no lookups leave the process",
         ],
-        subs: vec![Box::new(Pbt { name: "ui-ops", quick: 6_000, thorough: 600_000, strat, test, max_shrink: 3000 }), Box::new(KnownLayoutHang)],
+        subs: vec![
+            Box::new(Pbt { name: "ui-ops", quick: 6_000, thorough: 600_000, strat, test, max_shrink: 3000 }),
+            Box::new(Pbt { name: "ui-nav", quick: 6_000, thorough: 600_000, strat: nav_strat, test, max_shrink: 3000 }),
+            Box::new(KnownLayoutHang),
+        ],
     }
 }
